@@ -255,6 +255,10 @@ func runC19(c c19Case, st *hx.Stats) error {
 	defer os.RemoveAll(tmp)
 	w := &c19World{tmp: tmp, rootA: filepath.Join(tmp, "rootA"), rootB: filepath.Join(tmp, "rootB"), cwd: filepath.Join(tmp, "cwd"), home: filepath.Join(tmp, "home"), xdg: filepath.Join(tmp, "xdg"),
 		portA: hx.FreePort(), portB: hx.FreePort(), dbgA: hx.FreePort(), dbgB: hx.FreePort()}
+	// (a port that was just released may be handed out again at once: the four must differ to be told apart)
+	for try := 0; try < 50 && (w.portA == w.portB || w.dbgA == w.dbgB || w.portA == w.dbgA || w.portA == w.dbgB || w.portB == w.dbgA || w.portB == w.dbgB); try++ {
+		w.portB, w.dbgA, w.dbgB = hx.FreePort(), hx.FreePort(), hx.FreePort()
+	}
 	for _, d := range []string{w.rootA, w.rootB, w.cwd, w.home, w.xdg} {
 		os.MkdirAll(d, 0o755)
 	}
@@ -450,6 +454,10 @@ func runC19(c c19Case, st *hx.Stats) error {
 		}
 	}
 	if listening == "" {
+		if strings.Contains(b.Stderr(), "address already in use") {
+			// another process took the port between choosing and binding it: nothing to judge
+			return &hx.InfraError{Err: fmt.Errorf("port taken by another process: %s", head(b.Stderr(), 200))}
+		}
 		return hx.Failf("starts", "%s via %v: the server did not start: exit=%v stderr=%s stdout=%s", c.Setting, c.Assigns, b.Exited(), head(b.Stderr(), 400), head(b.Stdout(), 300))
 	}
 	got, err := w.observe(c.Setting, b, listening)
